@@ -379,13 +379,30 @@ def rule_hash_of_what_ran(ctx):
 
     ctx.check("shell" in kws and derives_from_run(kws["shell"], sa), cf.fq, "the recorded hash uses the shell flag the command was started with", f"shell comes from the database after the command: a step declared again with another flag while it ran is SUCCEEDED for the new flag with the output of the old one", f"run.{sa}", where=ctx.where_of(cf))
     ctx.check("env_overrides" in kws and derives_from_run(kws["env_overrides"], ea), cf.fq, "the recorded hash uses the overrides the command was started with", "env_overrides come from the database after the command", f"run.{ea}", where=ctx.where_of(cf))
+    # a recorded False / {} is a value, not an absence: a selection between the recorded and the stored value may only ask
+    # whether something was recorded (is None), never whether it is truthy
+    def is_run_attr(x, attr):
+        return isinstance(x, ast.Attribute) and x.attr == attr and isinstance(x.value, ast.Name) and x.value.id == "run"
+
+    for attr, what in ((sa, "shell flag"), (ea, "overrides")):
+        by_truth = []
+        for n in ast.walk(cf.node):
+            if isinstance(n, ast.BoolOp) and any(is_run_attr(v, attr) for v in n.values):
+                by_truth.append(ast.unparse(n))
+            elif isinstance(n, (ast.IfExp, ast.If)):
+                t = n.test.operand if isinstance(n.test, ast.UnaryOp) and isinstance(n.test.op, ast.Not) else n.test
+                if is_run_attr(t, attr):
+                    by_truth.append(ast.unparse(n.test))
+        ctx.check(not by_truth, cf.fq, f"the recorded {what} is used whenever one was recorded, also when it is False or empty",
+                  f"selected by truth value ({by_truth}): a command launched with {'shell=False' if attr == sa else 'no overrides'} is hashed with the values of a later declaration and ends SUCCEEDED for a declaration that never ran",
+                  "selected by `is None`, or used directly", where=ctx.where_of(cf))
     ej = ctx.prog.func("executor.Executor.execute_job")
     hits = [n for n in ast.walk(ej.node) if isinstance(n, ast.If) and f"run.{sa}" in ast.unparse(n.test) and f"run.{ea}" in ast.unparse(n.test) and any(callee_name(c) == "mark_step_pending" for st_ in n.body for c in calls_in(st_))]
     ctx.check(len(hits) == 1, ej.fq, "a step whose shell flag or overrides were re-declared while it ran is made pending again", "nothing compares the declaration with what was launched: the build ends with an output that does not belong to the final declaration", "compare + mark_step_pending", where=ctx.where_of(ej))
 
 
 RULES = [
-    Rule("R-C01-14", "the recorded hash describes the command that ran", rule_hash_of_what_ran, min_instances=5),
+    Rule("R-C01-14", "the recorded hash describes the command that ran", rule_hash_of_what_ran, min_instances=7),
     Rule("R-C01-13", "an observed change of a file is written and its consumers are told (update_file_hashes applies its table)", C09.rule_transitions_applied, min_instances=8),
     Rule("R-C01-12", "a reused node starts from the new declaration", rule_recreated_node_starts_clean, min_instances=2),
     Rule("R-C01-11", "a reverted optional step forgets what its run amended (same end state as a build that never ran it)", C07.rule_revert_forgets_run, min_instances=5),
@@ -400,6 +417,8 @@ RULES = [
 ]
 
 MUTANTS = [
+    Mutant("recorded-empty-overrides-taken-for-absent", "executor.py", in_function("Executor._compute_full_step_hash", lambda t: __import__("re").sub(r"env_overrides = \(\s*run\.step\.get_env_overrides\(\)\s*if run\.launched_env_overrides is None\s*else run\.launched_env_overrides\s*\)", "env_overrides = run.launched_env_overrides or run.step.get_env_overrides()", t, count=1) if __import__("re").search(r"if run\.launched_env_overrides is None", t) else None), ("R-C01-14",)),
+    Mutant("recorded-false-shell-taken-for-absent", "executor.py", in_function("Executor._compute_full_step_hash", replace_once("shell = run.step.uses_shell() if run.launched_shell is None else run.launched_shell", "shell = run.launched_shell or run.step.uses_shell()")), ("R-C01-14",)),
     Mutant("hash-from-redeclared-shell", "executor.py", in_function("Executor._compute_full_step_hash", replace_once("            shell = run.step.uses_shell() if run.launched_shell is None else run.launched_shell\n", "            shell = run.step.uses_shell()\n")), ("R-C01-14",)),
     Mutant("redeclared-running-step-not-rechecked", "executor.py", in_function("Executor.execute_job", replace_once("                self.workflow.mark_step_pending(step)\n", "                pass\n")), ("R-C01-14",)),
     Mutant("launched-overrides-not-kept", "executor.py", in_function("Executor._run_command", replace_once("        run.launched_env_overrides = dict(env_overrides)\n", "")), ("R-C01-14",)),
